@@ -150,6 +150,16 @@ def _status_built(ctx, fn, depth=0):
     return out
 
 
+def _del_unless_absent(ctx, b, start, dels):
+    """from `start` every path reaches one of `dels`, except through an edge on which the appointment is known not to exist
+    (`appointment_exists(..)` false / a load that answered None)"""
+    def absent(fs):
+        return any((f[0] == "truth" and f[2] is False and has_call(f[1], "appointment_exists")) or
+                   (f[0] == "variant" and f[2] == "None" and (has_call(f[1], "load_appointment") or has_call(f[1], "get_appointment_length"))) for f in fs)
+    from .rulekit import reaches_unless
+    return bool(dels) and reaches_unless(ctx, b, [start], dels, [], absent)
+
+
 def rule_OR2_watcher(ctx, tier):
     rr = RuleResult("OR2w", "Watcher block pipeline: cache update, DB intersection, decrypt, hand-over, failures to the delete list — on all paths")
     P = ctx.prog
@@ -287,6 +297,18 @@ def rule_OR2_watcher(ctx, tier):
                 rr.ok("late trigger: appointment stored before the hand-over to the Responder")
             else:
                 rr.fail("st:handover-before-store", "store_triggered_appointment hands the breach to the Responder on a path that has not stored the appointment: the tracker row has no appointment to reference (the insert is refused, or the data exists only in the tracker), and the receipt stands for an appointment that was never written", where=stt.line_of(hb_))
+        # the version that arrives here has been charged (or credited) against the version that is stored, if any. When this one
+        # turns out not to decrypt it is not stored — so the stored one cannot stay either: a 3-slot appointment that lingers
+        # (triggered, the node said 'already in chain': neither a tracker nor a refusal) replaced by a 1-slot blob of junk gives two
+        # slots back and keeps the three it occupies, again and again (C07: nobody holds more than they were granted)
+        dec_err = switch_succ_with(ctx, stt, "variant", "Err", "cryptography::decrypt")
+        if not dec_err:
+            rr.fail("st:no-decrypt-error-arm", "store_triggered_appointment has no arm for a blob that does not decrypt", where=stt.span)
+        for sw_, succ_ in dec_err:
+            if dels and always_reaches(stt, [succ_], dels, None) or _del_unless_absent(ctx, stt, succ_, dels):
+                rr.ok("late trigger: a version that does not decrypt takes the stored one with it")
+            else:
+                rr.fail("st:invalid-keeps-older-version", "on the arm of store_triggered_appointment where the blob does not decrypt nothing deletes an OLDER stored version of the appointment, although the balance has just been settled against the new one: a lingering multi-slot appointment (its penalty 'already in chain', so neither tracked nor refused) replaced by an undecryptable one-slot blob returns the difference and goes on occupying its slots — repeatable, the user's slots grow without bound", where=stt.line_of(sw_))
         if len(hbs) != 1 or not dels or not built:
             rr.fail("st:shape", "store_triggered_appointment: expected one handle_breach call and a delete_appointments call (found %d / %d; verdicts %s)" % (len(hbs), len(dels), sorted(built)), where=stt.span)
         else:
